@@ -258,20 +258,53 @@ class Gen:
                      'optimize': self.rng.random() < 0.5, 'reset_start': self.rng.random() < 0.5,
                      'reset_end': self.rng.random() < 0.5})
 
-    GENS = {}
+    def g_render8(self):
+        r = self.pick()
+        if not r:
+            return
+        for k in range(8):
+            self.do({'op': 'render', 'r': r, 'how': 'to_str', 'optimize': bool(k & 1), 'reset_start': bool(k & 2),
+                     'reset_end': bool(k & 4)})
+        self.do({'op': 'render', 'r': r, 'how': self.rng.choice(['str', 'format', 'fstr'])})
+
+    def g_reparse(self):
+        r = self.pick()
+        if r and self.room(2):
+            self.do({'op': 'reparse', 'r': r, 'cls': 'A' if self.rng.random() < 0.3 else 'S'})
+
+    def g_simplify(self):
+        r = self.pick()
+        if r and self.room(2):
+            if self.m.kinds[r] == 'S' and self.rng.random() < 0.5 and self.room(3):
+                e = self.do({'op': 'copy', 'r': r})
+                r = e['res'][0]
+            self.do({'op': 'simplify', 'r': r})
+
+    def epilogue(self, names):
+        """Run the given probe generators on every live library object."""
+        for r in self.regs_of('SA'):
+            for nm in names:
+                save = self.pick
+                self.pick = lambda kinds='SA', _r=r: _r
+                try:
+                    getattr(self, 'g_' + nm)()
+                finally:
+                    self.pick = save
 
     def step(self):
         names = list(self.w)
         name = self.rng.choices(names, [self.w[k] for k in names])[0]
         getattr(self, 'g_' + name)()
 
-    def run(self, nops, start=2):
+    def run(self, nops, start=2, epilogue=()):
         for _ in range(start):
             self.g_new()
         guard = 0
         while len(self.oplist) < nops and guard < nops * 4:
             guard += 1
             self.step()
+        if epilogue:
+            self.epilogue(epilogue)
         return self.oplist
 
 
@@ -286,6 +319,8 @@ def weights(**over):
 
 
 PROFILES = {
+    'C01': weights(render=0, render8=1.5, apply=4, remove=2, slice=1.5, add=1.5, iadd=1.5, copy=0.3),
+    'C03': weights(render=0, reparse=1.2, simplify=1.2, apply=4, remove=2),
     'C04': weights(slice=5, index=2, clip=2, iter=0.6, apply=3, remove=1.5),
     'C05': weights(add=4, iadd=4, join=2, split_rejoin=2, slice=2),
     'C06': weights(apply=6, remove=1.5, slice=1),
@@ -293,3 +328,116 @@ PROFILES = {
     'C08': weights(copy=3, add=2.5, iadd=2.5, join=1.5, slice=3, new_from=2),
     'C09': weights(),
 }
+
+
+# ---- C01: enumerated family of adjacent style states ---------------------------------------------
+GROUP_CODES = {
+    'bold': (['1', '2'], '22'), 'ital': (['3'], '23'), 'ul': (['4', '21'], '24'), 'blink': (['5', '6'], '25'),
+    'swap': (['7'], '27'), 'hide': (['8'], '28'), 'cross': (['9'], '29'), 'font': (['11', '20'], '10'),
+    'space': (['26'], '50'), 'box': (['51', '52'], '54'), 'over': (['53'], '55'),
+    'fg': (['31', '38;5;1', '38;2;1;2;3', '97'], '39'), 'bg': (['41', '48;5;2', '107'], '49'),
+    'ulc': (['58;5;3', '58;2;1;2;3'], '59'),
+}
+
+
+def style_options(g):
+    sets, clr = GROUP_CODES[g]
+    x, y = sets[0], sets[-1]
+    return [[], [x], [y], [clr], [x, clr], [clr, x], [x, y]]
+
+
+def family_cases(groups=None):
+    """(per-character style lists) for 2-3 characters over one group or a pair of groups."""
+    gs = sorted(GROUP_CODES) if groups is None else groups
+    cases = []
+    for g in gs:
+        opts = style_options(g)
+        for a in opts:
+            for b_ in opts:
+                cases.append([a, b_])
+                for c in (opts[0], opts[1], opts[3]):
+                    cases.append([a, b_, c])
+    for i, g in enumerate(gs):
+        for h in gs[i + 1:]:
+            og, oh = style_options(g)[:4], style_options(h)[:4]
+            for a in og:
+                for b_ in oh:
+                    for c in og:
+                        for d in oh:
+                            cases.append([a + b_, c + d])
+                            cases.append([b_ + a, d + c])
+    return cases
+
+
+def build_styles(g, styles, shared):
+    """Create an AnsiString whose k-th character reports exactly styles[k] (one instance per character, or one
+    instance spanning adjacent characters that share a leading setting when shared)."""
+    n = len(styles)
+    e = g.do({'op': 'new', 'cls': 'S', 'text': 'abc'[:n], 'sets': [], 'S': []})
+    r = e['res'][0]
+    depth = max(len(s) for s in styles)
+    for lvl in range(depth):
+        k = 0
+        while k < n:
+            if lvl < len(styles[k]):
+                code = styles[k][lvl]
+                j = k + 1
+                if shared:
+                    while j < n and lvl < len(styles[j]) and styles[j][lvl] == code and styles[j][:lvl] == styles[k][:lvl]:
+                        j += 1
+                g.do({'op': 'apply', 'r': r, 'sets': [{'k': 'aset', 'v': code}], 'S': [code], 'start': k, 'end': j, 'top': True})
+                k = j
+            else:
+                k += 1
+    return r
+
+
+def gen_render_family(m, rng, job):
+    g = Gen(m, rng, W_BASE)
+    cases = job['cases']
+    styles = cases[(job['base'] - 1 + job['_k']) % len(cases)]
+    r = build_styles(g, styles, shared=rng.random() < 0.5)
+    for k in range(8):
+        g.do({'op': 'render', 'r': r, 'how': 'to_str', 'optimize': bool(k & 1), 'reset_start': bool(k & 2),
+              'reset_end': bool(k & 4)})
+    return g.oplist, {}
+
+
+# ---- C02: inputs with escape sequences -----------------------------------------------------------
+SEQ_ALPHA = ['1', '31', '1;31', '38;5;214', '1;38;5;214', '38;5;214;1', '4;58;5;9', '38;2;1;2;3', '38;2;1;2;3;4',
+             '48;5;7;22', '0', '', '22', '39', '0;1', '1;0', '99', '1;99;31', '21;24', '2;22;3', '38;5', '1;38;2;5;6',
+             '58;2;9;8;7;53', '10', '11;10', '91;39;34']
+SEQ_NONSGR = ['\x1b[2J', '\x1b[H', '\x1b[1;2H', '\x1b[K']
+SEQ_OUT_OF_CLAIM = ['\x1b[1;;3m', '\x1b[38;7;1m', '\x1b[38;5;300m', '\x1b[?1m', '\x1b[1:2m', '\x1b[ 1m']
+
+
+def random_sgr(rng):
+    if rng.random() < 0.6:
+        return rng.choice(SEQ_ALPHA)
+    codes = ['0', '1', '2', '3', '4', '22', '24', '31', '34', '39', '41', '49', '38;5;1', '48;5;2', '58;5;3', '38;2;1;2;3',
+             '99', '38', '38;5', '5', '2']
+    return ';'.join(rng.choice(codes) for _ in range(rng.randint(1, 4)))
+
+
+def gen_parse_input(m, rng, job):
+    g = Gen(m, rng, W_BASE)
+    parts = []
+    for _ in range(rng.randint(1, 6)):
+        x = rng.random()
+        if x < 0.45:
+            parts.append(''.join(rng.choice('ab m[1;') for _ in range(rng.randint(1, 3))))
+        elif x < 0.9:
+            parts.append('\x1b[' + random_sgr(rng) + 'm')
+        elif x < 0.96:
+            parts.append(rng.choice(SEQ_NONSGR))
+        else:
+            parts.append(rng.choice(SEQ_OUT_OF_CLAIM))
+    if rng.random() < 0.1:
+        parts.append(rng.choice(['\x1b[1', '\x1b[', '\x1b', '\x1b[31;']))
+    text = ''.join(parts)
+    e = g.do({'op': 'new', 'cls': 'A' if rng.random() < 0.3 else 'S', 'text': text, 'sets': [], 'S': []})
+    if e['out'] == 'ok' and rng.random() < 0.5:
+        r = e['res'][0]
+        g.do({'op': 'render', 'r': r, 'how': 'str'})
+        g.do({'op': 'reparse', 'r': r})
+    return g.oplist, {}
